@@ -366,6 +366,28 @@ func rule123(r *core.Run, ctx *oblig.Ctx) {
 			okWrap = a && b
 		}
 	}
+	// nothing else may sit between the body and the backend: a length-limiting or
+	// buffering wrapper hides trailing bytes and framing errors from the size check
+	if nh != nil {
+		if ph, ok := nh.Call.Args[0].(*ssa.Phi); ok {
+			for _, e := range ph.Edges {
+				v := e
+				for {
+					if mi, ok := v.(*ssa.MakeInterface); ok {
+						v = mi.X
+					} else if ci, ok := v.(*ssa.ChangeInterface); ok {
+						v = ci.X
+					} else {
+						break
+					}
+				}
+				if c, ok := v.(*ssa.Call); ok && c != nc {
+					okWrap = false
+					r.Violated("R12.3", key(name, "no extra wrapper around the body"), pos(r, c), "the request body is wrapped in "+r.P.CalleeName(c)+" before it reaches the hashing reader: the backend no longer sees bytes beyond the declared length (over-long streams are cut instead of refused) or framing errors")
+				}
+			}
+		}
+	}
 	r.Check(okWrap, "R12.3", key(name, "hashing reader wraps decoder or body"), pos(r, nc), "reader = decoder on the streaming arm, r.Body otherwise", "the hashing reader does not wrap exactly the decoder (streaming) / the raw body (otherwise)")
 	// decoded length
 	scs := storingCalls(r, fn)
